@@ -18,10 +18,40 @@ def rng_for(seed, pid, salt=0):
 
 def rand_mac(rng):
     b = bytearray(rng.getrandbits(8) for _ in range(6))
-    b[0] = (b[0] & 0xFC) | 0x02          # locally administered unicast
+    b[0] = (b[0] & 0xFC) | (0x02 if rng.random() < 0.5 else 0x00)      # unicast; locally administered or not
+    if rng.random() < 0.5:
+        b[2] |= 0x80
     if bytes(b) == W.BCAST:
         b[5] = 1
     return bytes(b)
+
+
+def related_mac(rng, base):
+    """an address that differs from base only a little: one bit of one byte, only the first two bytes (a vendor
+    prefix and its locally administered twin), only the last byte - address comparisons that drop or mangle a byte
+    treat the two as one station"""
+    b = bytearray(base)
+    r = rng.random()
+    if r < 0.35:
+        b[0] ^= rng.choice([0x02, 0x04, 0x40, 0x80, 0x06])
+        if rng.random() < 0.5:
+            b[1] ^= rng.choice([0x01, 0x80, 0xFF])
+    elif r < 0.7:
+        k = rng.randrange(1, 6)
+        b[k] ^= rng.choice([0x01, 0x80, 0x10, 0xFF])
+    else:
+        b[5] = (b[5] + rng.choice([1, 2, 255])) & 0xFF
+    b[0] &= 0xFE
+    if bytes(b) in (bytes(base), W.BCAST):
+        b[3] ^= 0x55
+    return bytes(b)
+
+
+def edge_mac(rng):
+    """legal but unusual station addresses: group bit set, all zero, repeating bytes, high bits set"""
+    return rng.choice([b"\x01\x00\x5e\x00\x00\x01", b"\x33\x33\x00\x00\x00\x01", b"\x00" * 6, b"\xaa" * 6, b"\xff\xff\xff\xff\xff\xfe",
+                       b"\x00\x15\x99\x00\x00\x07", b"\x02\x15\x99\x00\x00\x07", b"\xa5" + bytes(rng.getrandbits(8) for _ in range(5)),
+                       W.BCAST, bytes([0x80, 0x80, 0x80, 0x80, 0x80, 0x80]), b"\x01\x80\xc2\x00\x00\x0e"])
 
 
 def distinct_macs(rng, n, avoid=()):
@@ -136,9 +166,24 @@ class Net:
         self.rng = rng
         self.own = own
         ms = distinct_macs(rng, nmappers * 2 + nstrangers, avoid=[own, W.BCAST])
+        self.twinned = rng.random() < 0.5
+        if self.twinned:
+            # a LAN whose stations have nearly equal addresses: the second mapper, the first mapper's bridge and some
+            # strangers differ from the first mapper / from this station in a single byte or only in the first two
+            for _ in range(8):
+                cand = list(ms)
+                cand[1] = related_mac(rng, cand[0])
+                cand[nmappers] = related_mac(rng, cand[0])
+                cand[2 * nmappers] = related_mac(rng, own)
+                if nstrangers > 1:
+                    cand[2 * nmappers + 1] = related_mac(rng, cand[0])
+                if len(set(cand)) == len(cand) and own not in cand and W.BCAST not in cand:
+                    ms = cand
+                    break
         self.mappers = ms[:nmappers]
         self.bridges = ms[nmappers:2 * nmappers]      # Ethernet source when mapper i is behind a bridge
         self.strangers = ms[2 * nmappers:]
+        self.last_seq = None                          # last sequence number / transaction id any builder used
 
     def others(self, k):
         return distinct_macs(self.rng, k, avoid=[self.own, W.BCAST] + self.mappers)
@@ -153,7 +198,11 @@ def f_discover(rng, net, m=None, tos=None, ack=None, bridged=None, gen=None, xid
     eth = net.bridges[i] if bridged else real
     tos = rng.choice([0, 0, 0, 1]) if tos is None else tos
     gen = rng.choice(GENS + [rng.getrandbits(16)]) if gen is None else gen
-    xid = rng.getrandbits(16) if xid is None else xid
+    if xid is None:
+        # a transaction id is just a number: it may repeat (a Discover is retransmitted with a growing station list) or
+        # collide with the sequence number of the last command
+        xid = net.last_seq if (net.last_seq is not None and rng.random() < 0.3) else rng.choice([0, 1, 0xFFFF, rng.getrandbits(16), rng.getrandbits(16)])
+    net.last_seq = xid
     n = rng.choice([0, 1, 2, 5]) if nstations is None else nstations
     sts = [rng.choice(net.strangers) for _ in range(n)]
     ack = (rng.random() < 0.5) if ack is None else ack
@@ -181,15 +230,19 @@ def f_emit(rng, net, m, seq=None, n=None, tos=0, bridged=False, kinds=(0, 1)):
     descs = []
     for _ in range(n):
         descs.append((rng.choice(kinds), rng.choice([0, 0, 1, 2, 255, rng.randint(0, 255)]),
-                      rng.choice(net.strangers + [net.own, rand_mac(rng)]),
-                      rng.choice(net.strangers + [rand_mac(rng)])))
+                      rng.choice(net.strangers + [net.own, rand_mac(rng)]) if rng.random() < 0.85 else rng.choice([edge_mac(rng), real, net.own]),
+                      rng.choice(net.strangers + [rand_mac(rng)]) if rng.random() < 0.85 else rng.choice([edge_mac(rng), real, net.own])))
     seq = rng.randint(1, 0xFFFF) if seq is None else seq
+    net.last_seq = seq
     return W.emit(net.own, real, seq, descs, tos=tos, eth_src=eth), descs
 
 
 def f_probe(rng, net, to_me=True, train=None, src=None, real_src=None):
-    src = rand_mac(rng) if src is None else src
-    real_src = rng.choice(net.strangers) if real_src is None else real_src
+    if src is None:
+        r = rng.random()
+        src = rand_mac(rng) if r < 0.85 else rng.choice([edge_mac(rng), net.own, related_mac(rng, net.own), related_mac(rng, net.strangers[0])])
+    if real_src is None:
+        real_src = rng.choice(net.strangers) if rng.random() < 0.92 else rng.choice([net.own, edge_mac(rng), src])
     train = (rng.random() < 0.4) if train is None else train
     if to_me:
         return W.probe(net.own, src, net.own, real_src, train=train)
@@ -199,7 +252,9 @@ def f_probe(rng, net, to_me=True, train=None, src=None, real_src=None):
 
 def f_query(rng, net, m, seq=None, bridged=False, tos=0):
     real = net.mappers[m]
-    return W.query(net.own, real, rng.randint(1, 0xFFFF) if seq is None else seq,
+    seq = rng.randint(1, 0xFFFF) if seq is None else seq
+    net.last_seq = seq
+    return W.query(net.own, real, seq,
                    eth_src=net.bridges[m] if bridged else real, tos=tos)
 
 
